@@ -24,7 +24,9 @@ def init : St := { t := TtlMap.init, nexec := 0 }
 def save (c : Cfg) (t : TtlMap) (id : Nat) : TtlMap :=
   t.write kMain (pack3 t.now id (t.now + c.soft)) (some c.ttl)
 
-/-- `try: result = await func(…) except exceptions: <serve cached or raise> else: <store>` -/
+/-- `try: result = await func(…) except exceptions: <serve cached or raise>
+else: if condition(result, …): _ttl = ttl_to_seconds(ttl, …, result=result); …; backend.set(…); return result`
+— the store step is outside `except exceptions`: what it raises propagates, the store is left alone -/
 def execute (c : Cfg) (s : St) (o : Outcome) (cached : Option (Nat × Nat × Nat)) : St × CallOut :=
   let id := s.nexec
   match o with
@@ -34,6 +36,8 @@ def execute (c : Cfg) (s : St) (o : Outcome) (cached : Option (Nat × Nat × Nat
     | some (stamp, id0, _) => ({ s with nexec := id + 1 }, ⟨.stored stamp id0, true, false⟩)
     | none => ({ s with nexec := id + 1 }, ⟨.raised .listed, true, false⟩)
   | .unlisted => ({ s with nexec := id + 1 }, ⟨.raised .unlisted, true, false⟩)
+  | .rejected => ({ s with nexec := id + 1 }, ⟨.fresh s.t.now id, true, false⟩)
+  | .storeFails _ l => ({ s with nexec := id + 1 }, ⟨.storeErr l, true, false⟩)
 
 /-- `_wrap` -/
 def call (c : Cfg) (s : St) (o : Outcome) : St × CallOut :=
